@@ -1295,8 +1295,11 @@ func implSign(f []string) string {
 	return fmt.Sprintf("ok signed=%s a0=%s || parsedaab=%s verify=%s %s detv=%s direct=%d emitted=%s", signed, hx.Hex(a0), parsedAab, vstr(verr), requiredAttrs(si2, content), detv, direct, emitted)
 }
 
-func Impl() {
-	hx.EachLine(func(f []string) string {
+func Impl() { hx.EachLine(Handle) }
+
+// Handle runs one C16 op (fields after the property tag) on the real code.
+func Handle(f []string) string {
+	{
 		switch f[0] {
 		case "tskeep":
 			return c10.OpKeep(f[1:])
@@ -1363,5 +1366,5 @@ func Impl() {
 			return implStamp(hx.MustUnHex(f[2]), hx.MustUnHex(f[3]), hx.MustUnHex(f[4]), hx.MustUnHex(f[5]))
 		}
 		return "bad-op"
-	})
+	}
 }
